@@ -286,6 +286,29 @@ func (r *decideRun) eval1(v ssa.Value) AV {
 				}
 			}
 		}
+		// an element of a package-level ARRAY that is filled once, in init, at constant indexes (a dispatch table
+		// indexed by an enumeration), read at a decided index
+		if x.Op == token.MUL {
+			if ia, isIA := x.X.(*ssa.IndexAddr); isIA {
+				if g, isG := ia.X.(*ssa.Global); isG {
+					if entries, okT := constArrayTable(g); okT {
+						saved := r.err
+						idx := r.eval(ia.Index)
+						r.err = saved
+						if idx.Kind == "const" && idx.C.Kind() == constant.Int {
+							for _, e := range entries {
+								if constant.Compare(e.key, token.EQL, idx.C) {
+									return r.eval(e.val)
+								}
+							}
+							if isNillable(x.Type()) {
+								return AV{Kind: "nil"}
+							}
+						}
+					}
+				}
+			}
+		}
 		return r.fail("load/unop %s not covered by the oracle (%s)", x.Name(), x.String())
 	case *ssa.BinOp:
 		a, b := r.eval(x.X), r.eval(x.Y)
@@ -1104,6 +1127,15 @@ func mayMakeWanted(fn *ssa.Function, want func(ssa.CallInstruction) bool, depth 
 			}
 			sc := cc.StaticCallee()
 			if sc == nil {
+				// an entry of a constant dispatch table: any of the entries
+				if targets, okT := tableTargets(cc.Value); okT {
+					for _, t := range targets {
+						if depth > 0 && inModule(t) && mayMakeWanted(t, want, depth-1, seen) {
+							return true
+						}
+					}
+					continue
+				}
 				// (what a captured variable or parameter of a callee denotes is decided on the path, not here)
 				return true
 			}
@@ -1373,4 +1405,124 @@ func inModule(fn *ssa.Function) bool {
 		return strings.HasPrefix(o.Pkg().Path(), modPath)
 	}
 	return false
+}
+
+var constArrayCache = map[*ssa.Global]*struct {
+	entries []tableEntry
+	ok      bool
+}{}
+
+// constArrayTable: the entries of a package-level array whose elements are only ever stored in the package
+// initialiser, at constant indexes (`var t = [...]T{K1: v1, K2: v2}`).
+func constArrayTable(g *ssa.Global) ([]tableEntry, bool) {
+	if c := constArrayCache[g]; c != nil {
+		return c.entries, c.ok
+	}
+	res := &struct {
+		entries []tableEntry
+		ok      bool
+	}{}
+	constArrayCache[g] = res
+	if _, isArr := derefType(g.Type()).Underlying().(*types.Array); !isArr || g.Pkg == nil {
+		return nil, false
+	}
+	initFn := g.Pkg.Func("init")
+	if initFn == nil {
+		return nil, false
+	}
+	clean := true
+	var visit func(f *ssa.Function)
+	visit = func(f *ssa.Function) {
+		for _, b := range f.Blocks {
+			for _, in := range b.Instrs {
+				switch x := in.(type) {
+				case *ssa.Store:
+					if x.Addr == ssa.Value(g) && f != initFn {
+						clean = false
+					}
+					ia, isIA := x.Addr.(*ssa.IndexAddr)
+					if !isIA || ia.X != ssa.Value(g) {
+						continue
+					}
+					k, isK := ia.Index.(*ssa.Const)
+					if f != initFn || !isK || k.Value == nil {
+						clean = false
+						continue
+					}
+					res.entries = append(res.entries, tableEntry{k.Value, x.Val})
+				case *ssa.Slice:
+					if x.X == ssa.Value(g) {
+						clean = false // a slice of it can be written through
+					}
+				}
+			}
+		}
+		for _, a := range f.AnonFuncs {
+			visit(a)
+		}
+	}
+	for _, m := range g.Pkg.Members {
+		if fn, isFn := m.(*ssa.Function); isFn {
+			visit(fn)
+		}
+		if tp, isT := m.(*ssa.Type); isT {
+			_ = tp
+		}
+	}
+	if !clean {
+		res.entries = nil
+		return nil, false
+	}
+	res.ok = true
+	return res.entries, true
+}
+
+// tableTargets: the functions a value read from a constant package-level dispatch table (map or array) can be.
+func tableTargets(v ssa.Value) ([]*ssa.Function, bool) {
+	if ex, isEx := v.(*ssa.Extract); isEx {
+		v = ex.Tuple
+	}
+	var entries []tableEntry
+	ok := false
+	switch x := v.(type) {
+	case *ssa.Lookup:
+		if ld, isLd := x.X.(*ssa.UnOp); isLd && ld.Op == token.MUL {
+			if g, isG := ld.X.(*ssa.Global); isG {
+				entries, ok = constTable(g)
+			}
+		}
+	case *ssa.UnOp:
+		if ia, isIA := x.X.(*ssa.IndexAddr); isIA && x.Op == token.MUL {
+			if g, isG := ia.X.(*ssa.Global); isG {
+				entries, ok = constArrayTable(g)
+			}
+		}
+	}
+	if !ok {
+		return nil, false
+	}
+	var out []*ssa.Function
+	for _, e := range entries {
+		ev := e.val
+		if ct, isCT := ev.(*ssa.ChangeType); isCT {
+			ev = ct.X
+		}
+		switch f := ev.(type) {
+		case *ssa.Function:
+			out = append(out, f)
+		case *ssa.MakeClosure:
+			if fn, isFn := f.Fn.(*ssa.Function); isFn {
+				out = append(out, fn)
+			} else {
+				return nil, false
+			}
+		case *ssa.Const:
+			if !f.IsNil() {
+				return nil, false
+			}
+		default:
+			return nil, false
+		}
+	}
+	return out, true
 }
